@@ -149,6 +149,8 @@ def rule_post_hook_frame(ctx):
     ctx.ob("POST-HOOK-FRAME", "Display uses the type only through PurlShape::package_type()", uses == ["package_type"], fn=dk, detail=str(uses))
 
 
+THOROUGH_FS = ["pt", "none", "serde"]
+
 RULES = [
     ("ONCE-CONV", rule_once_conv, 4),
     ("ONCE-HOOK", rule_once_hook, 9),
